@@ -24,6 +24,12 @@ pub trait Broker: Send {
     /// Labels of the environment actions the broker currently offers (pushes, releases).
     fn actions(&self) -> Vec<String>;
     fn apply(&mut self, idx: usize, out: &mut BrokerOut);
+    /// Virtual-time schedule: the next instant (ns) at which the broker wants to act.
+    fn next_time_ns(&self) -> Option<u64> {
+        None
+    }
+    /// Called after virtual time advanced to `now_ns`.
+    fn on_time(&mut self, _now_ns: u64, _out: &mut BrokerOut) {}
     /// Fire a manual push by label (batch drivers). Returns false if unknown or used.
     fn force(&mut self, _label: &str, _out: &mut BrokerOut) -> bool {
         false
@@ -166,6 +172,8 @@ pub struct StdBroker {
     /// channels the broker has closed itself and whose CloseOk is outstanding: everything
     /// else the client still sends on them is discarded, as a real broker does
     pub closing_channels: std::collections::BTreeSet<u16>,
+    /// (virtual time ns, raw bytes) the server sends on its own at that time, in order
+    pub timed: VecDeque<(u64, Vec<u8>)>,
 }
 
 impl StdBroker {
@@ -196,6 +204,7 @@ impl StdBroker {
             silent_after_handshake: false,
             open_channels: Default::default(),
             closing_channels: Default::default(),
+            timed: VecDeque::new(),
         }
     }
 
@@ -643,6 +652,24 @@ impl Broker for StdBroker {
                     return;
                 }
                 i += 1;
+            }
+        }
+    }
+
+    fn next_time_ns(&self) -> Option<u64> {
+        if self.stage < 3 {
+            return None;
+        }
+        self.timed.front().map(|(t, _)| *t)
+    }
+
+    fn on_time(&mut self, now_ns: u64, out: &mut BrokerOut) {
+        while let Some((t, _)) = self.timed.front() {
+            if *t <= now_ns && self.stage >= 3 {
+                let (_, b) = self.timed.pop_front().unwrap();
+                out.bytes.extend_from_slice(&b);
+            } else {
+                break;
             }
         }
     }
